@@ -100,6 +100,8 @@ def run_kani(harness_text, harnesses, features='all_msgs', jobs=16, timeout=3600
         located = [{'desc': d, 'file': f, 'line': int(l)} for (d, f, l) in re.findall(r'(?m)^Failed Checks: (.*)\n\s*File: "([^"]+)", line (\d+)', body)]
         if st == 'failed' and fails and all('unwinding assertion' in f for f in fails):
             st = 'tool'
+        if st == 'failed' and not fails and ('CBMC failed' in body or 'out of memory' in body or 'CBMC timed out' in body):
+            st = 'tool'     # the back end died (memory / time): undecided, never an alarm
         covers = re.search(r'(\d+) of (\d+) cover properties satisfied', body)
         res[name] = {'status': st, 'detail': body.strip()[-2500:], 'time_s': float(tm.group(1)) if tm else None,
                      'failed_checks': fails, 'located': located, 'covers': (int(covers.group(1)), int(covers.group(2))) if covers else None}
